@@ -289,6 +289,49 @@ where
                 ctx.violation(format!("{}|iterator-consumed-differently", name), || case(""), || d.clone());
             }
         }
+        // an overshooting nth() with a huge argument exhausts the iterator for good, whichever way
+        // the rest is consumed afterwards (from a fresh iterator and after one next())
+        for huge in [usize::MAX, usize::MAX / 2, usize::MAX / 4, 1 << 63, 1 << 62, 1 << 61, (1 << 61) + 1, 1 << 60, (1 << 60) + 3, usize::MAX / (bpp.max(1) as usize), usize::MAX / 8 + 1] {
+            for warm in [0usize, 1] {
+                ctx.eval();
+                let spent = || {
+                    let mut it = RawDataSlice::<R, O>::new(&data).into_iter();
+                    for _ in 0..warm {
+                        it.next();
+                    }
+                    let r = it.nth(huge);
+                    (it, r.is_some())
+                };
+                let mut wrong: Vec<String> = Vec::new();
+                if spent().1 {
+                    wrong.push("nth(huge) returns an item".into());
+                }
+                let c = spent().0.count();
+                if c != 0 {
+                    wrong.push(format!("count() = {}", c));
+                }
+                if spent().0.last().is_some() {
+                    wrong.push("last() returns an item".into());
+                }
+                let mut folded = 0usize;
+                spent().0.for_each(|_| folded += 1);
+                if folded != 0 {
+                    wrong.push(format!("for_each visits {} items", folded));
+                }
+                let sh = spent().0.size_hint();
+                if sh != (0, Some(0)) {
+                    wrong.push(format!("size_hint() = {:?}", sh));
+                }
+                let mut it = spent().0;
+                if it.next().is_some() || it.nth(0).is_some() || it.nth(3).is_some() {
+                    wrong.push("next()/nth() return an item".into());
+                }
+                if !wrong.is_empty() {
+                    ctx.violation(format!("{}|iterator-not-exhausted-after-overshooting-nth", name), || case(&format!("{} x next(), then nth({:#x})", warm, huge)), || wrong.join("; "));
+                    break;
+                }
+            }
+        }
         for (i, w) in want.iter().enumerate() {
             let l: Option<u32> = R::load::<O>(&data, i).map(|r| r.into_inner().into());
             if l != Some(*w) {
